@@ -29,6 +29,7 @@ case "$1" in
     ov=$(VERIF_BUF4=1 go run ./cmd/mkoverlay sched "$VERIF_ROOT/.build/ov-buf4") || exit 2
     go build -modfile=go.sched.mod -overlay "$ov" -o "$VERIF_ROOT/.build/mcsched${VERIF_BIN_SUFFIX:-}.buf4" ./cmd/mcsched ;;
   mcrace)
-    CGO_ENABLED=1 go build -race -o "$VERIF_ROOT/.build/mcrace${VERIF_BIN_SUFFIX:-}" ./cmd/mcrace ;;
+    ov=$(go run ./cmd/mkoverlay plain "$VERIF_ROOT/.build/ov-race") || exit 2
+    CGO_ENABLED=1 go build -race -overlay "$ov" -o "$VERIF_ROOT/.build/mcrace${VERIF_BIN_SUFFIX:-}" ./cmd/mcrace ;;
   *) echo "unknown binary $1" >&2; exit 2 ;;
 esac
